@@ -7,8 +7,8 @@ Reading of the combinators (a PEG; tied to chumsky 0.10 by the correspondence ru
 ordered choice commits to the first alternative that succeeds, `repeated()` is greedy, `or_not()` falls back to
 "nothing consumed", `separated_by` rewinds to before a separator that is not followed by an item,
 `padded()` skips white space on both sides.  A numeric token that does not fit its type is a failure of that
-alternative (`number()` / `hex()` convert inside `try_map`; before BugStalker c7cd7fc, 15cb65b, 1c32a2e these were
-`unwrapped()` / `unwrap()` panics), a negative literal is `(val as i64).wrapping_neg()` (before dfe8c6f `-(val as i64)`,
+alternative (`number()` / `hex()` convert inside `try_map`; before BugStalker 49f358c, b81e8d8, 67375f8 these were
+`unwrapped()` / `unwrap()` panics), a negative literal is `(val as i64).wrapping_neg()` (before 0af67fe `-(val as i64)`,
 which panicked on 2^63 with overflow checks).  `PR.panic` ("a panic inside a sub-parser aborts everything") is still
 threaded through the combinators but no leaf produces it any more.
 
